@@ -37,7 +37,8 @@ def obligations(ctx):
     obs = ctx.verify(FUNCTIONS)
     keep = [o for o in obs if any(k in o.name for k in ("raises", "cover", "call-pre", "divisor", "true-iff", "inv_cache"))]
     errors_ok = error_taxonomy(ctx)
-    return keep + errors_ok
+    from props._shared import typing_state_census
+    return list(keep + errors_ok) + [typing_state_census(ctx, 'C17')]
 
 
 def error_taxonomy(ctx):
